@@ -474,7 +474,7 @@ def stream_graphs(R, rng, tier):
                 blocks.append((np.asarray(x.pose), np.asarray(y.pose)))
         R.add("graph", ga, gb, blocks, C.graph_tokens(ga), C.graph_tokens(gb), dict(variant=name))
     # seeded random graphs: random lengths 0..5, each element the base or a random deviation
-    n = 3000 if tier == "thorough" else 300
+    n = 3000 if tier == "thorough" else (1500 if tier == "escalated" else 300)
     bases = list(base_specs(("gen",)))
     for it in range(n):
         ne, nv = rng.randrange(0, 5), rng.randrange(0, 5)
